@@ -178,7 +178,7 @@ let first_or_self e = match e with
 
 let parse_html_text which value s =
   match value with
-  | Str (_, _) -> (value, s)
+  | Str (v, _) -> ((mk_str v), s)
   | JExprC e ->
     (match e with
      | JEmpty ->
